@@ -32,6 +32,16 @@ type Scenario struct {
 	Check    func(state any, e *vsched.Exec) (outcome string, findings []Finding)
 	MaxSteps int
 	Cache    bool // happens-before state cache allowed for this scenario
+	Delay    bool // cost model: delay bounding instead of preemption bounding
+}
+
+// WithDelay returns a copy of sc that is explored with delay bounding; its
+// name carries the suffix "~d" so that replays pick the same cost model.
+func WithDelay(sc *Scenario) *Scenario {
+	c := *sc
+	c.Delay = true
+	c.Name = sc.Name + "~d"
+	return &c
 }
 
 type Options struct {
@@ -58,6 +68,7 @@ type Stats struct {
 	Steps      int64
 	States     int64
 	Pruned     int64
+	Skipped    int64 // alternatives not executed at all: their successor state was already claimed
 	MaxPoints  int
 	Outcomes   map[string]int64
 	Complete   bool
@@ -77,6 +88,7 @@ func (s *Stats) Merge(o *Stats) {
 	s.Steps += o.Steps
 	s.States += o.States
 	s.Pruned += o.Pruned
+	s.Skipped += o.Skipped
 	s.Horizon += o.Horizon
 	s.Leaked += o.Leaked
 	if o.MaxPoints > s.MaxPoints {
@@ -135,25 +147,39 @@ func (ex *explorer) runOnce(prefix []int, trace bool) (*vsched.Exec, any, bool) 
 				return -1
 			}
 		} else if ex.useC {
+			// default continuation: stop if the state this move leads to was
+			// already expanded with at least the remaining budgets
 			rem := budget{ex.opt.PBound - usedP, ex.opt.DBound - usedD}
-			if b, ok := ex.visited[fp]; ok && b.p >= rem.p && b.d >= rem.d {
+			if !ex.claim(moves[0].Next, rem) {
 				pruned = true
 				return -1
-			} else if !ok || (rem.p >= b.p && rem.d >= b.d) {
-				ex.visited[fp] = rem
 			}
 		}
 		usedP += moves[c].PCost
 		usedD += moves[c].DCost
 		return c
 	}
-	e := vsched.Run(vsched.Config{MaxSteps: ex.sc.MaxSteps, Choose: choose, Trace: trace}, func() {
+	e := vsched.Run(vsched.Config{MaxSteps: ex.sc.MaxSteps, Choose: choose, Trace: trace, DelayCost: ex.sc.Delay}, func() {
 		state = ex.sc.Body()
 	})
 	if pruned {
 		e.Diverged = ""
 	}
 	return e, state, pruned
+}
+
+// claim records that the subtree below state fp is going to be explored
+// with remaining budgets rem; it returns false when that (or more) has
+// been claimed before.
+func (ex *explorer) claim(fp uint64, rem budget) bool {
+	b, ok := ex.visited[fp]
+	if ok && b.p >= rem.p && b.d >= rem.d {
+		return false
+	}
+	if !ok || (rem.p >= b.p && rem.d >= b.d) {
+		ex.visited[fp] = rem
+	}
+	return true
 }
 
 func (ex *explorer) exploreFrom(root []int) {
@@ -213,6 +239,10 @@ func (ex *explorer) visit(prefix []int) [][]int {
 				if usedP+m.PCost > ex.opt.PBound || usedD+m.DCost > ex.opt.DBound {
 					continue
 				}
+				if ex.useC && !ex.claim(m.Next, budget{ex.opt.PBound - usedP - m.PCost, ex.opt.DBound - usedD - m.DCost}) {
+					ex.st.Skipped++
+					continue
+				}
 				child := make([]int, i+1)
 				copy(child, e.Choices[:i])
 				child[i] = alt
@@ -244,6 +274,14 @@ func (ex *explorer) record(f Finding, e *vsched.Exec) {
 func Replay(sc *Scenario, choices []int) (*vsched.Exec, string, []Finding) {
 	ex := &explorer{sc: sc, st: &Stats{Outcomes: map[string]int64{}}}
 	e, state, _ := ex.runOnce(choices, true)
+	outcome, findings := sc.Check(state, e)
+	return e, outcome, findings
+}
+
+// RunDefault executes the default schedule once, without tracing.
+func RunDefault(sc *Scenario) (*vsched.Exec, string, []Finding) {
+	ex := &explorer{sc: sc, st: &Stats{Outcomes: map[string]int64{}}}
+	e, state, _ := ex.runOnce(nil, false)
 	outcome, findings := sc.Check(state, e)
 	return e, outcome, findings
 }
@@ -332,6 +370,7 @@ func Iterative(sc *Scenario, opt Options) *Stats {
 		total.Execs += st.Execs
 		total.Steps += st.Steps
 		total.Pruned += st.Pruned
+		total.Skipped += st.Skipped
 		total.Horizon += st.Horizon
 		total.Leaked += st.Leaked
 		total.States = st.States
@@ -369,7 +408,7 @@ func Iterative(sc *Scenario, opt Options) *Stats {
 // RunMany explores every scenario in its own worker process (iterative
 // preemption bounding, one happens-before cache per scenario), at most
 // `workers` at a time, and returns the results in order.
-func RunMany(prop string, scs []*Scenario, opt Options, workers int) []*Stats {
+func RunMany(prop string, scs []*Scenario, opts []Options, workers int) []*Stats {
 	out := make([]*Stats, len(scs))
 	jobs := make(chan int)
 	var wg sync.WaitGroup
@@ -381,7 +420,7 @@ func RunMany(prop string, scs []*Scenario, opt Options, workers int) []*Stats {
 		go func() {
 			defer wg.Done()
 			for i := range jobs {
-				st, err := runWorker(workerReq{Prop: prop, Scenario: scs[i].Name, Opt: opt, Iterative: true})
+				st, err := runWorker(workerReq{Prop: prop, Scenario: scs[i].Name, Opt: opts[i], Iterative: true})
 				if err != nil {
 					st = &Stats{Scenario: scs[i].Name, Err: err.Error(), CompletedP: -1}
 				}
